@@ -1,5 +1,5 @@
 import vlib
-from props import protocommon
+from props import protocommon, wirealloc
 from props.common import generic_replay
 
 PROP = "C07"
@@ -7,14 +7,14 @@ RULE = {
  "C03": "TLC enumerates (shape, value) pairs of spec/ProtoCodec.tla: every single-field shape over 20 kinds x 4 cardinalities x tag numbers x value ids, and all multi-field shapes over a seeded subset of kinds; each is materialised with reflect.StructOf under 2 boundary-value liftings, by value and by pointer, plus repeated fields stretched to 9..41 and ~1000 elements; Marshal/Size/Unmarshal are compared with the property's relation. distinct_nontrivial = distinct vectors",
  "C12": "same vectors; encoder direction: the reference implementation (dynamicpb over a generated descriptor) must decode proto.Marshal's bytes to the value; decoder direction: the standard encoding, the reference's own encoding and the specification's legal re-encodings (reordered, overridden scalars, split messages), each also with non-minimal varints, must decode to the value",
  "C16": "same vectors; MarshalTo into every destination length 0..Size+3 with guard bytes behind the destination",
- "C07": "same vectors; the valid encoding, the encoding sprinkled with unknown fields of every wire type at every boundary, every prefix of both, and seeded mutations (length damage, over-long varints, group wire types) through Unmarshal, Parse, Scan and RawValue accessors with an allocation meter",
+ "C07": "same vectors; the valid encoding, the encoding sprinkled with unknown fields of every wire type at every boundary, every prefix of both, and seeded mutations (length damage, over-long varints, group wire types) through Unmarshal, Parse, Scan and RawValue accessors with an allocation meter; plus the append kind of spec/WireAlloc.tla: repeated fields of up to 80 thousand elements (varints, strings, messages, one packed run) arriving one by one, allocation within a constant factor of the input",
 }[PROP]
 ASSUME = ["google.golang.org/protobuf v1.25.0 (dynamicpb) validates the specification's wire semantics on every vector (disagreement = exit 2)",
           "scalar value ids are lifted to the boundary tables in harness/protoshape.go"]
 
 
 def run(tier, seed):
-    return protocommon.run(PROP, tier, seed, RULE, ASSUME, shards=4, isolate=(PROP in ("C03", "C07")))
+    return protocommon.run(PROP, tier, seed, RULE, ASSUME, shards=4, isolate=(PROP in ("C03", "C07")), extra_vec=(wirealloc.add if PROP == "C07" else None))
 
 
 def replay(path, seed):
